@@ -4,4 +4,4 @@ from checks import travprop
 from checks.trav_sources import SOURCES, NONTRIVIAL, COUNTERS, CLASSIFY
 
 if __name__ == "__main__":
-    travprop.main("C05", SOURCES["C05"], COUNTERS["C05"], nontrivial=NONTRIVIAL["C05"], classify=CLASSIFY.get("C05"))
+    travprop.main("C05", SOURCES["C05"], COUNTERS["C05"], nontrivial=NONTRIVIAL["C05"], classify=CLASSIFY.get("C05"), quick_cases=200)
